@@ -106,7 +106,7 @@ func genC13(ctx *Ctx, i int) *Input {
 		r := rng.New(ctx.Seed, "C13", "edit", k)
 		b = r.Intn(len(bases))
 		n := len(bases[b].Text)
-		kinds := []string{"flip", "flip", "insert", "delete", "dupsector", "dropsector", "swapsector", "flip+truncate", "insert-rune", "rune-at-mark", "rune-at-mark"}
+		kinds := []string{"flip", "flip", "insert", "delete", "dupsector", "dropsector", "swapsector", "flip+truncate", "insert-rune", "rune-at-mark", "rune-at-mark", "escape-at-end"}
 		c := &Corruption{Kind: rng.Pick(r, kinds), At: r.Intn(n), N: 16}
 		switch c.Kind {
 		case "flip", "insert", "flip+truncate":
@@ -116,6 +116,19 @@ func genC13(ctx *Ctx, i int) *Input {
 			}
 		case "swapsector":
 			c.Arg = r.Intn(n)
+		case "escape-at-end":
+			// the file ends inside a character literal written with a backslash escape: ... '\n<EOF>
+			c.Kind = "escape-at-end"
+			var quotes []int
+			for k := 0; k < n; k++ {
+				if bases[b].Text[k] == '\'' {
+					quotes = append(quotes, k)
+				}
+			}
+			if len(quotes) > 0 {
+				c.At = quotes[r.Intn(len(quotes))]
+			}
+			c.Arg = r.Intn(8)
 		case "rune-at-mark":
 			// faults placed where the lexer is between two things: right after a directive word, around %% %{ %} and the
 			// braces, colons and bars of the file - an odd blank or an invisible character there is what pasted text brings
@@ -207,6 +220,12 @@ func (c *Corruption) Apply(t string) string {
 		return string(b[:cut])
 	case "insert":
 		return string(b[:at]) + string([]byte{byte(c.Arg)}) + string(b[at:])
+	case "escape-at-end":
+		esc := []string{"\\n", "\\t", "\\x4", "\\0", "\\101", "\\u00e", "\\\\", "\\n'"}[c.Arg%8]
+		if at < n && b[at] == '\'' {
+			return string(b[:at+1]) + esc
+		}
+		return string(b[:at]) + "'" + esc
 	case "insert-rune", "insert-rune-at-mark":
 		ins := string(rune(c.Arg))
 		if c.Arg < 0 {
@@ -413,7 +432,7 @@ func init() {
 		Rule:     "fault = damage to the grammar file handed to yaccgo while its lexer task and parser task run over their channel: EVERY truncation point of every base text (the repository's examples + rendered grammars of all families), then seeded byte substitutions/insertions/deletions from the grammar's own alphabet and duplicated/dropped/swapped 16-byte sectors. Each damaged text runs through generate (go, go -o -u, typescript) or debug under a tick budget of 200 x ticks(base) + 1e6. distinct_nontrivial = distinct damaged texts that were run to an outcome.",
 		NumCases: func(ctx *Ctx) int { c13Bases(ctx); return c13cum[len(c13cum)-1] + c13Edits(ctx) },
 		Gen:      genC13, Exec: execC13,
-		FaultKeys: []string{"fault_truncate", "fault_flip", "fault_insert", "fault_insert-rune", "fault_insert-rune-at-mark", "fault_delete", "fault_dupsector", "fault_dropsector", "fault_swapsector", "fault_flip+truncate"},
+		FaultKeys: []string{"fault_truncate", "fault_flip", "fault_insert", "fault_insert-rune", "fault_insert-rune-at-mark", "fault_escape-at-end", "fault_delete", "fault_dupsector", "fault_dropsector", "fault_swapsector", "fault_flip+truncate"},
 		Probes:    []string{"outcome_ok", "outcome_error", "outcome_panic", "generations_with_-g(child process)"},
 		Real:      []string{"yaccgo generator (instrumented copy): lexer task, parser task, channel, table construction, code generation, -g drawing incl. process start and pipe", "the uninstrumented CLI (confirmation of every hang)"},
 		Stubs:     []string{"`dot` (graphviz, absent in the sandbox): a stand-in on the PATH that reads its input to the end"},
